@@ -7,7 +7,9 @@ whole SESSIONS on one derivative object (attribute re-assignments, in-place pric
 registration, refused operations, payoff() in between) vs `run` of Model/Session.lean (driver op "session"), every answer exact;
 clauses handed over as lambdas / functions / callable instances / bound methods / partials, one descriptor = ONE callable object, so a
 clause registered twice (under two names) is the same callable twice (ops "clauses" and "session" see the same registrations);
-functionals on price tensors of shape (T,), (B, N, T), ... (contiguous, permuted, strided) vs op "payoff" / "var_swap" path by path.
+functionals on price tensors of shape (T,), (B, N, T), ... (contiguous, permuted, strided) vs op "payoff" / "var_swap" path by path;
+derivatives with SEVERAL registered underliers and underliers re-assigned after construction (construction histories of the derivative
+objects of every section, re-assignments inside the sessions = a new price buffer for the model, user contracts on two and more assets).
 property predicate: the contract formulas in exact Fractions (independent of the model).
 """
 import math
@@ -175,6 +177,96 @@ def same_clause_twice(adds):
     return len({table[n] for n in order}) < len(order)
 
 
+# ---------------------------------------------------------------------------------------------------------------------------
+# the underlier registry.  A derivative may carry more than one registered underlier (an FX rate read by a quanto clause, the assets
+# of a user-defined spread / basket contract), and an underlier may be replaced after construction (`derivative.underlier = stock`,
+# register_underlier under an existing name).  Whatever the history, the contract is written on the instrument that is registered
+# under the name NOW, and the registry (named_underliers(), underliers(), ul(i)) lists the names in the order of their FIRST
+# registration: a replaced underlier keeps its position (ul() is what every built-in payoff reads).
+# A history = steps (how, name, asset): "register" = register_underlier(name, asset), "assign" = attribute assignment;
+# assets: "S" = the instrument carrying the prices of the case, "O" / "X" / "Y" / "Z" = other instruments of the same step size.
+# The derivative is constructed on "S", or on "O" when the history assigns the underlier later.
+
+HIST = {
+    "direct": [],
+    "reassigned": [("assign", "underlier", "S")],
+    "reregistered": [("register", "underlier", "S")],
+    "extra": [("register", "fx", "X")],
+    "extra+reassigned": [("register", "fx", "X"), ("assign", "underlier", "S")],
+    "extra+reregistered": [("register", "fx", "X"), ("register", "underlier", "S")],
+    "attr-extra+reassigned": [("assign", "fx", "X"), ("assign", "underlier", "S")],
+    "reassigned+extra": [("assign", "underlier", "S"), ("assign", "fx", "X")],
+    "two-extra+reassigned": [("register", "fx", "X"), ("assign", "collateral", "Y"), ("assign", "underlier", "S"), ("assign", "fx", "Z")],
+}
+HIST_WEIGHTS = [("direct", 9), ("reassigned", 1), ("reregistered", 1), ("extra", 1), ("extra+reassigned", 3), ("extra+reregistered", 1),
+                ("attr-extra+reassigned", 2), ("reassigned+extra", 1), ("two-extra+reassigned", 2)]
+HIST_OTHERS = ["O", "X", "Y", "Z"]
+
+
+def hist_assets(hist):
+    """the other instruments a history needs"""
+    steps = HIST[hist]
+    need = [k for _, _, k in steps if k != "S"]
+    if any(n == "underlier" for _, n, _ in steps):
+        need.append("O")
+    return [k for k in HIST_OTHERS if k in need]
+
+
+def make_with_history(hist, make, assets):
+    """make(primary) -> derivative; assets: key -> primary.  Returns the derivative and what its registry has to show:
+    [(name, primary), ..] in the order in which the names were first registered (the oracle's own bookkeeping)"""
+    steps = HIST[hist]
+    first = assets["O"] if any(n == "underlier" for _, n, _ in steps) else assets["S"]
+    d = make(first)
+    order, table = ["underlier"], {"underlier": first}
+    for how, name, key in steps:
+        if how == "register":
+            d.register_underlier(name, assets[key])
+        else:
+            setattr(d, name, assets[key])
+        if name not in table:
+            order.append(name)
+        table[name] = assets[key]
+    return d, [[n, table[n]] for n in order]
+
+
+def history_corpus():
+    """every kind, call and put, on two fixed paths, with an FX rate registered as second underlier (by register_underlier / by
+    attribute) and the underlier assigned afterwards: part of every run, whatever the seed"""
+    out = []
+    for kind in KINDS + ["variance_swap"]:
+        for call in ([True] if kind in ("forward_start", "variance_swap") else [True, False]):
+            for hist in ("extra+reassigned", "attr-extra+reassigned", "two-extra+reassigned"):
+                paths = [[F(1), F(2), F(1, 2), F(1)], [F(1), F(1, 2), F(2), F(4)]]
+                other = [[F(2), F(1, 4), F(4), F(2)], [F(1, 2), F(1), F(1, 4), F(1, 2)]]
+                others = {k: [[x * m for x in p] for p in other] for k, m in zip(hist_assets(hist), (1, 2, F(1, 2), 4))}
+                out.append(dict(kind=kind, call=call, strike=F(1), paths=paths, adds=[["a", ["affine", "2", "1/2"]]] if call else [],
+                                dt=F(1, 4), sidx=1, cform="function", share=True, hist=hist, others=others))
+    return out
+
+
+def registry_wrong(d, reg):
+    """None when every view of the registry of `d` shows `reg` = [(name, primary), ..], else what it shows instead"""
+    names = [n for n, _ in d.named_underliers()]
+    want = [n for n, _ in reg]
+    if names != want:
+        return {"named_underliers": names, "registered (first registration of each name, in order)": want}
+    objs = list(d.underliers())
+    for i, (n, o) in enumerate(reg):
+        views = {"underliers()[i]": objs[i], "ul(i)": d.ul(i), "attribute": getattr(d, n), "get_underlier": d.get_underlier(n),
+                 "named_underliers()[i]": list(d.named_underliers())[i][1]}
+        off = [k for k, v in views.items() if v is not o]
+        if off:
+            return {"position": i, "name": n, "not the instrument registered under the name": off}
+    if d.ul() is not reg[0][1]:
+        return {"ul()": "not the first registered underlier"}
+    return None
+
+
+def reg_show(reg):
+    return [n for n, _ in reg]
+
+
 def gen_deriv(g, tier):
     kind = g.choice(KINDS + ["variance_swap"])
     N, T = g.small(), g.small((2, 2, 3, 4, 5, 8))
@@ -196,35 +288,51 @@ def gen_deriv(g, tier):
         adds.append([name, d])
     dtk = g.choice([F(1, 4), F(1, 8), F(1, 256), F(1, 2)])
     sidx = g.randint(0, T - 1)
+    hist = g.weighted(HIST_WEIGHTS)
+    # the prices of the OTHER instruments of the history (same number of paths, mostly the same number of steps)
+    others = {key: gen_paths(g, N, T if g.chance(0.8) else g.small((2, 3, 5)), 3, pow2=(kind == "forward_start"))
+              for key in hist_assets(hist)}
     return dict(kind=kind, call=call, strike=k, paths=paths, adds=adds, dt=dtk, sidx=sidx,
-                cform=g.choice(CFORMS), share=g.chance(0.8))
+                cform=g.choice(CFORMS), share=g.chance(0.8), hist=hist, others=others)
 
 
 def build_deriv(torch, c, pool=None):
     import pfhedge.instruments as I
     pool = pool if pool is not None else ClausePool(c["cform"], c["share"])
-    dt = torch.float64
-    stock = I.BrownianStock(dt=float(c["dt"]), dtype=dt)
-    stock.register_buffer("spot", torch.tensor([[float(v) for v in p] for p in c["paths"]], dtype=dt))
+    stock = new_stock(torch, c["paths"], c["dt"])
     T = len(c["paths"][0])
     mat = (T - 1) * float(c["dt"])
     k = float(c["strike"])
     kind = c["kind"]
-    if kind == "european":
-        d = I.EuropeanOption(stock, call=c["call"], strike=k, maturity=mat)
-    elif kind == "lookback":
-        d = I.LookbackOption(stock, call=c["call"], strike=k, maturity=mat)
-    elif kind == "american_binary":
-        d = I.AmericanBinaryOption(stock, call=c["call"], strike=k, maturity=mat)
-    elif kind == "european_binary":
-        d = I.EuropeanBinaryOption(stock, call=c["call"], strike=k, maturity=mat)
-    elif kind == "forward_start":
-        d = I.EuropeanForwardStartOption(stock, strike=k, maturity=mat, start=c["sidx"] * float(c["dt"]))
-    else:
-        d = I.VarianceSwap(stock, strike=k, maturity=mat)
+
+    def make(ul):
+        if kind == "european":
+            return I.EuropeanOption(ul, call=c["call"], strike=k, maturity=mat)
+        if kind == "lookback":
+            return I.LookbackOption(ul, call=c["call"], strike=k, maturity=mat)
+        if kind == "american_binary":
+            return I.AmericanBinaryOption(ul, call=c["call"], strike=k, maturity=mat)
+        if kind == "european_binary":
+            return I.EuropeanBinaryOption(ul, call=c["call"], strike=k, maturity=mat)
+        if kind == "forward_start":
+            return I.EuropeanForwardStartOption(ul, strike=k, maturity=mat, start=c["sidx"] * float(c["dt"]))
+        return I.VarianceSwap(ul, strike=k, maturity=mat)
+    assets = {"S": stock}
+    for key, paths in c.get("others", {}).items():
+        assets[key] = new_stock(torch, paths, c["dt"])
+    d, reg = make_with_history(c.get("hist", "direct"), make, assets)
     for name, desc in c["adds"]:
         d.add_clause(name, pool.get(desc))
-    return d, stock
+    return d, stock, reg
+
+
+def new_stock(torch, paths, dt):
+    """an instrument of step size dt carrying the given prices (float64)"""
+    import pfhedge.instruments as I
+    stock = I.BrownianStock(dt=float(dt), dtype=torch.float64)
+    stock.register_buffer("spot", torch.tensor([[float(v) for v in p] for p in paths], dtype=torch.float64).reshape(
+        len(paths), len(paths[0]) if paths else 0))
+    return stock
 
 
 def apply_clauses_py(adds, p, path=None):
@@ -311,11 +419,16 @@ def check(ctx):
     # ------------- derivative level: payoff_fn wiring, clauses, start index, variance swap
     reqs, metas = [], []
     vs_reqs, vs_meta = [], []
-    for _ in range(n2):
-        c = gen_deriv(g, ctx.tier)
+    for c in history_corpus() + [gen_deriv(g, ctx.tier) for _ in range(n2)]:
         try:
-            d, stock = build_deriv(torch, c)
+            d, stock, reg = build_deriv(torch, c)
         except Exception as e:  # noqa
+            if c["hist"] != "direct":
+                # the constructor is the one of the plain cases: what raised is a registration / re-assignment of an underlier
+                ctx.case(_small(c), nontrivial=True, tag="deriv_" + c["kind"])
+                ctx.fail("registering a further underlier / re-assigning an underlier of a derivative raised", _small(c),
+                         key="derivative.underliers:registration-error", detail=canon_error(e))
+                continue
             raise InternalError("cannot build derivative: " + repr(e))
         with torch.no_grad():
             st, v, mut = call_impl(d.payoff, watch=[("derivative", d)])
@@ -325,8 +438,16 @@ def check(ctx):
         ctx.stats[f"d:nclauses={len(c['adds'])}"] += 1
         ctx.stats[f"d:clause_callable={c['cform']}"] += 1
         ctx.stats[f"d:same-clause-twice={same_clause_twice(c['adds'])}"] += 1
+        ctx.stats[f"d:history={c['hist']}"] += 1
         ctx.case(_small(c), nontrivial=True, tag="deriv_" + c["kind"])
         ctx.traces += 1
+        # the registry after the construction history: every name at the position of its first registration, the instrument
+        # registered under it now; a payoff that differs below is then reported as the contract on the wrong instrument
+        badreg = registry_wrong(d, reg)
+        if badreg:
+            ctx.fail("the underlier registry of a derivative does not list its underliers in the order in which their names were "
+                     "registered (an underlier replaced after construction keeps its position; ul() is what the payoff reads)",
+                     _small(c) | {"registered": reg_show(reg)}, key="derivative.underliers:registration-order", detail=badreg)
         if st != "ok":
             ctx.fail("derivative.payoff() raised on a simulated path", _small(c),
                      key=f"derivative.{c['kind']}.payoff:error", detail=v)
@@ -346,6 +467,11 @@ def check(ctx):
                 lr = [math.log(float(p[i + 1])) - math.log(float(p[i])) for i in range(len(p) - 1)]
                 exp = sum(x * x for x in lr) / len(lr) / float(c["dt"]) - float(c["strike"])
                 if abs(got - exp) > 1e-9 * (1 + abs(exp)):
+                    if badreg:
+                        ctx.fail("variance swap payoff is not the contract on the instrument registered as `underlier` (several "
+                                 "registered underliers, one re-assigned after construction)", _small(c),
+                                 key="derivative.variance_swap.payoff:wrong-underlier", detail={"impl": got, "def": exp, "registry": badreg})
+                        break
                     ctx.fail("variance swap payoff differs from annualised mean squared log-return minus strike",
                              _small(c), key="derivative.variance_swap.payoff:value", detail={"impl": got, "def": exp})
             # registered clauses on payoff_fn() in registration order: the clause arithmetic (one IEEE multiplication and addition,
@@ -364,7 +490,12 @@ def check(ctx):
         order, _ = apply_clauses_py(c["adds"], F(0))
         exp = [apply_clauses_py(c["adds"], b)[1] for b in base]
         if got != exp:
-            if c["kind"] == "forward_start" and d._start_index() != c["sidx"]:
+            if badreg:
+                ctx.fail("derivative.payoff() is not clauses(contract payoff) on the instrument registered as `underlier` (several "
+                         "registered underliers, one re-assigned after construction): the payoff reads another instrument's prices",
+                         _small(c), key=f"derivative.{c['kind']}.payoff:wrong-underlier",
+                         detail={"impl": enc_rat(got), "contract": enc_rat(exp), "registry": badreg})
+            elif c["kind"] == "forward_start" and d._start_index() != c["sidx"]:
                 ctx.fail("forward-start option starts at the wrong time index: floor(start/dt) in doubles lands one index early",
                          _small(c) | {"start_index": d._start_index()}, key="cliquet._start_index:floor(start/dt)",
                          detail={"impl": enc_rat(got), "contract": enc_rat(exp)})
@@ -458,27 +589,44 @@ def check(ctx):
         if g.chance(0.3):
             x[0, -1] = K          # tie with the strike (as a double)
         via = g.choice(["functional", "derivative"])
+        hist = g.weighted(HIST_WEIGHTS) if via == "derivative" else "direct"
         case = {"kind": kind, "call": call, "strike": K, "dtype": "float64", "via": via, "paths": [[float(v) for v in r] for r in x.tolist()]}
+        if hist != "direct":
+            case["history"] = [list(z) for z in HIST[hist]]       # the other instruments carry the prices times 5/4, 3/4, ...
         ctx.case(case, True, tag="nondyadic-strike")
         ctx.traces += 1
+        badreg = None
         if via == "functional":
             st, v, _ = call_impl(getattr(fnl2, kind + "_payoff"), x, call=call, strike=K)
         else:
-            stock = I2.BrownianStock(dtype=torch.float64)
-            stock.register_buffer("spot", x.clone())
+            assets = {}
+            for key, m in [("S", 1.0)] + list(zip(hist_assets(hist), (1.25, 0.75, 1.5, 0.875))):
+                assets[key] = I2.BrownianStock(dtype=torch.float64)
+                assets[key].register_buffer("spot", x.clone() * m)
             cls = {"european": I2.EuropeanOption, "lookback": I2.LookbackOption, "american_binary": I2.AmericanBinaryOption,
                    "european_binary": I2.EuropeanBinaryOption}[kind]
-            st, v, _ = call_impl(cls(stock, call=call, strike=K, maturity=max(T - 1, 1) * stock.dt).payoff)
+            d, reg = make_with_history(hist, lambda ul: cls(ul, call=call, strike=K, maturity=max(T - 1, 1) * ul.dt), assets)
+            badreg = registry_wrong(d, reg)
+            if badreg:
+                ctx.fail("the underlier registry of a derivative does not list its underliers in the order in which their names were "
+                         "registered (an underlier replaced after construction keeps its position; ul() is what the payoff reads)",
+                         case | {"registered": reg_show(reg)}, key="derivative.underliers:registration-order", detail=badreg)
+            st, v, _ = call_impl(d.payoff)
         if st != "ok":
             ctx.fail("payoff raised on a float64 path with a non-dyadic strike", case, key=f"{via}.{kind}.payoff:error", detail=v)
             continue
         exp = [float(contract(kind, call, F(K), [F(float(z)) for z in r])) for r in x.tolist()]
         got = [float(z) for z in v.tolist()]
-        if v.dtype != torch.float64 or got != exp:
+        if badreg and got != exp:
+            ctx.fail("payoff() is not the contract on the instrument registered as `underlier` (several registered underliers, one "
+                     "re-assigned after construction)", case, key=f"{via}.{kind}.payoff:wrong-underlier",
+                     detail={"impl": got, "contract": exp, "registry": badreg})
+        elif v.dtype != torch.float64 or got != exp:
             ctx.fail("payoff on a float64 path is not the (correctly rounded) contract value at the given strike: strike or prices rounded through "
                      "a lower precision?", case, key=f"{via}.{kind}.payoff:double-precision", detail={"impl": got, "contract": exp})
     check_reuse(ctx, torch, g)
     check_offgrid_maturity(ctx, torch, g)
+    check_multi_asset(ctx, torch, g)
     return ctx.finish(
         rule="functional payoffs on dyadic paths (ties with the strike/extremes frequent, T=1,2,.., float32/64), derivative objects "
              "with injected buffers and random clause sequences (re-registration included; the same clause = the same callable object "
@@ -490,6 +638,11 @@ def check(ctx):
              "cell indices outside the buffer) with payoff() after most steps, each such session also run through the Lean session model "
              "(op session: every payoff() answer / raised error / final object state compared exactly); forward-start options on SIMULATED paths "
              "whose maturity is / is not a whole number of steps (terminal price = last simulated column, start=0 vs EuropeanOption); "
+             "derivative objects of all these sections with a construction HISTORY (further registered underliers, the underlier assigned / "
+             "registered again after construction; a fixed corpus of such histories for every kind), sessions that replace the underlier by "
+             "another instrument or register further ones (for the model: a new price buffer), user-defined spread / basket contracts on "
+             "2-5 assets with assets replaced after construction: the registry keeps the order of first registration (named_underliers, "
+             "underliers, ul(i), attribute) and payoff() is the contract on the instruments registered now; "
              "non-trivial = T>=2 (functional), any derivative/start-index/re-use/off-grid case; distinct = sha1 of canonical case")
 
 
@@ -633,6 +786,8 @@ def gen_reuse_ops(g, c):
     Python indices incl. negative ones) / badcell (index outside the buffer: IndexError, nothing changes) / reregister (a new buffer
     object, possibly of another shape) / simulate (the library replaces the buffer; the prices are then overwritten in place) /
     clause (affine, cap, floor, knock_out on the current path maximum) / badclause (refused name: KeyError, nothing changes) /
+    swap (the underlier is REPLACED: a new instrument object with its own prices, assigned by attribute or registered under the
+    name "underlier") / extra (a further underlier "fx" / "collateral" is registered or replaced) /
     again (payoff() once more); ["quiet", op] = the operation is NOT followed by a payoff() call"""
     kind = c["kind"]
     paths = [list(p) for p in c["paths"]]
@@ -643,7 +798,7 @@ def gen_reuse_ops(g, c):
     descs = [list(d) for _, d in c["adds"]]          # clauses registered so far (whatever the name)
     for _ in range(g.choice([1, 2, 3, 4, 6, 10])):
         N, T = len(paths), len(paths[0])
-        menu = [("strike", 4), ("again", 1), ("reregister", 1), ("simulate", 1), ("badcell", 1)]
+        menu = [("strike", 4), ("again", 1), ("reregister", 1), ("simulate", 1), ("badcell", 1), ("swap", 2), ("extra", 1)]
         if T > 0:
             menu.append(("spot", 3))
         if kind not in ("forward_start", "variance_swap"):
@@ -677,7 +832,11 @@ def gen_reuse_ops(g, c):
         elif op == "badcell":
             i, j = g.choice([(N, 0), (-N - 1, 0), (0, T), (0, -T - 1), (N + 2, T + 2)])
             o = ["badcell", [[i, j, rat_str(F(3, 2))]]]
-        elif op in ("reregister", "simulate"):
+        elif op == "extra":
+            # a further underlier (or another instrument under the name of a further underlier): the contract does not change
+            o = ["extra", g.choice(["fx", "fx", "collateral"]), g.choice(["attr", "register"]),
+                 enc_rat(gen_paths(g, N, T if T > 0 else 2, 3, pow2=pow2))]
+        elif op in ("reregister", "simulate", "swap"):
             if op == "simulate":
                 N2, T2 = (N if g.chance(0.5) else g.small()), T0          # maturity fixes the number of columns
             else:
@@ -687,6 +846,8 @@ def gen_reuse_ops(g, c):
                     T2 = 0                                                # an empty time axis: payoff() must raise
             paths = gen_paths(g, N2, T2, 3, pow2=pow2)
             o = [op, enc_rat(paths)]
+            if op == "swap":
+                o.append(g.choice(["attr", "attr", "register"]))         # d.underlier = new / d.register_underlier("underlier", new)
         elif op in ("clause", "badclause"):
             ck = g.choice(["affine", "cap", "floor", "knock_out"])
             if descs and g.chance(0.35):
@@ -733,9 +894,14 @@ def check_reuse(ctx, torch, g):
         ctx.stats[f"reuse:nops={len(ops)}"] += 1
         pool = ClausePool(c["cform"], c["share"])       # one pool for the whole session: a repeated clause is the same callable
         try:
-            d, stock = build_deriv(torch, c, pool)
+            d, stock, reg = build_deriv(torch, c, pool)
         except Exception as e:  # noqa
+            if c["hist"] != "direct":
+                ctx.fail("registering a further underlier / re-assigning an underlier of a derivative raised", _small(c),
+                         key="derivative.underliers:registration-error", detail=canon_error(e))
+                continue
             raise InternalError("cannot build derivative: " + repr(e))
+        ctx.stats[f"reuse:history={c['hist']}"] += 1
         cur = dict(kind=c["kind"], call=c["call"], strike=c["strike"], paths=[list(p) for p in c["paths"]],
                    adds=[list(a) for a in c["adds"]], sidx=c["sidx"], dt=c["dt"])
         # ---- the same session for the Lean model (Model/Session.lean, driver op "session"): `mops` = model operations in the
@@ -797,6 +963,31 @@ def check_reuse(ctx, torch, g):
                     else:
                         stock.register_buffer("spot", new)
                     mops.append(["reregister", [[enc(v) for v in p] for p in cur["paths"]]]); iouts.append(None)
+                elif what == "swap":
+                    # the underlier is replaced by ANOTHER instrument (same step size) with its own prices; for the model: the
+                    # one price buffer the contract reads is a new one
+                    cur["paths"] = [[F(v) for v in p] for p in op[1]]
+                    stock = new_stock(torch, cur["paths"], c["dt"])
+                    st, v, _ = call_impl(setattr, d, "underlier", stock) if op[2] == "attr" else \
+                        call_impl(d.register_underlier, "underlier", stock)
+                    if st != "ok":
+                        ctx.fail("replacing the underlier of a derivative raised", case | {"step": step, "how": op[2]},
+                                 key="derivative.underliers:registration-error", detail=v)
+                        break
+                    reg[0][1] = stock
+                    mops.append(["reregister", [[enc(v) for v in p] for p in cur["paths"]]]); iouts.append(None)
+                elif what == "extra":
+                    other = new_stock(torch, dec_rat(op[3]), c["dt"])
+                    st, v, _ = call_impl(setattr, d, op[1], other) if op[2] == "attr" else call_impl(d.register_underlier, op[1], other)
+                    if st != "ok":
+                        ctx.fail("registering a further underlier of a derivative raised", case | {"step": step, "name": op[1], "how": op[2]},
+                                 key="derivative.underliers:registration-error", detail=v)
+                        break
+                    if op[1] in [n for n, _ in reg]:
+                        [r for r in reg if r[0] == op[1]][0][1] = other
+                    else:
+                        reg.append([op[1], other])
+                    # (nothing the model knows of: the contract and its prices are as before)
                 elif what in ("clause", "badclause"):
                     if op[1] != "" and "." not in op[1] and op[1] not in ("strike", "payoff", "maturity"):
                         cur["adds"].append([op[1], op[2]])
@@ -807,6 +998,12 @@ def check_reuse(ctx, torch, g):
                         iouts.append(("err", canon_error(e)))
                     mops.append(["clause", op[1], encd(op[2])])
                 ctx.stats[f"reuse:op={what}"] += 1
+                badreg = registry_wrong(d, reg) if what in ("initial", "swap", "extra") else None
+                if badreg:
+                    ctx.fail("the underlier registry of a derivative does not list its underliers in the order in which their names were "
+                             "registered (an underlier replaced after construction keeps its position; ul() is what the payoff reads)",
+                             case | {"step": step, "after": op[:3], "registered": reg_show(reg)},
+                             key="derivative.underliers:registration-order", detail=badreg)
                 if quiet:
                     ctx.stats["reuse:quiet"] += 1
                     continue
@@ -933,13 +1130,23 @@ def check_offgrid_maturity(ctx, torch, g):
         seed = g.randint(0, 10 ** 6)
         init = g.choice([None, None, None, 1.25, 0.75])
         sigma = g.choice([0.2, 0.3, 1.0])
+        hist = g.weighted(HIST_WEIGHTS)
         case = {"dt": dtv, "maturity": mat, "steps": whole + frac, "start_step": sidx, "strike": K, "n_paths": N, "seed": seed,
                 "init": init, "sigma": sigma}
+        if hist != "direct":
+            case["history"] = [list(z) for z in HIST[hist]]       # the other instruments: BrownianStock(sigma=0.4) of the same step size
         ctx.case(case, nontrivial=True, tag="offgrid_maturity" if frac else "ongrid_maturity")
         ctx.traces += 1
         ctx.stats[f"offgrid:frac={frac}"] += 1
+        ctx.stats[f"offgrid:history={hist}"] += 1
         stock = I.BrownianStock(sigma=sigma, dt=dtv, dtype=torch.float64)
-        d = I.EuropeanForwardStartOption(stock, strike=K, maturity=mat, start=sidx * dtv)
+        assets = {"S": stock} | {key: I.BrownianStock(sigma=0.4, dt=dtv, dtype=torch.float64) for key in hist_assets(hist)}
+        d, reg = make_with_history(hist, lambda ul: I.EuropeanForwardStartOption(ul, strike=K, maturity=mat, start=sidx * dtv), assets)
+        badreg = registry_wrong(d, reg)
+        if badreg:
+            ctx.fail("the underlier registry of a derivative does not list its underliers in the order in which their names were "
+                     "registered (an underlier replaced after construction keeps its position; ul() is what the payoff reads)",
+                     case | {"registered": reg_show(reg)}, key="derivative.underliers:registration-order", detail=badreg)
         torch.manual_seed(seed)
         d.simulate(n_paths=N, init_state=None if init is None else (init,))
         xs = [[float(z) for z in r] for r in stock.spot.tolist()]
@@ -957,7 +1164,12 @@ def check_offgrid_maturity(ctx, torch, g):
         got = [float(z) for z in v.tolist()]
         exp = [max(r[-1] / r[sidx] - K, 0.0) for r in xs]
         if got != exp:
-            if d._start_index() != sidx:
+            if badreg:
+                ctx.fail("forward-start payoff on simulated paths is not the contract on the instrument registered as `underlier` (several "
+                         "registered underliers, one re-assigned after construction)", case,
+                         key="derivative.forward_start.payoff:simulated-wrong-underlier",
+                         detail={"impl": got, "contract": exp, "registry": badreg})
+            elif d._start_index() != sidx:
                 ctx.fail("forward-start option starts at the wrong time index: floor(start/dt) in doubles lands one index early",
                          case | {"start_index": d._start_index()}, key="cliquet._start_index:floor(start/dt)",
                          detail={"impl": got, "contract": exp})
@@ -975,7 +1187,172 @@ def check_offgrid_maturity(ctx, torch, g):
                          key="derivative.forward_start.payoff:start0-vs-european", detail={"forward_start": got, "european": eu})
 
 
+# ---------------------------------------------------------------------------------------------------------------------------
+# user-defined contracts on TWO AND MORE assets (the inherited machinery: registry, ul(i), clauses, payoff()): a spread option
+# max(first_T - second_T - K, 0) reading its assets by position (ul(0), ul(1)) or by name, a basket max(sum_i w_i S^i_T - K, 0)
+# over underliers() in registration order.  Assets are replaced after construction (by attribute / register_underlier under the
+# existing name), a basket grows by a further asset: after every step the registry lists the names in the order of their first
+# registration and payoff() is clauses(contract) on the instruments registered NOW, one entry per path (exact on dyadic prices).
+
+def user_contracts():
+    from pfhedge.instruments import BaseDerivative
+
+    class Spread(BaseDerivative):
+        def __init__(self, first, second, strike, maturity, by):
+            super().__init__()
+            self.first = first
+            self.second = second
+            self.strike, self.maturity, self.by = strike, maturity, by
+
+        def payoff_fn(self):
+            a, b = (self.ul(0), self.ul(1)) if self.by == "position" else (self.first, self.second)
+            return (a.spot[..., -1] - b.spot[..., -1] - self.strike).clamp(min=0.0)
+
+    class Basket(BaseDerivative):
+        def __init__(self, assets, weights, strike, maturity):
+            super().__init__()
+            for i, a in enumerate(assets):
+                self.register_underlier(f"asset{i}", a)
+            self.weights, self.strike, self.maturity = list(weights), strike, maturity
+
+        def payoff_fn(self):
+            total = 0.0
+            for w, u in zip(self.weights, self.underliers()):
+                total = total + w * u.spot[..., -1]
+            return (total - self.strike).clamp(min=0.0)
+
+    return Spread, Basket
+
+
+WEIGHTS = [F(1), F(1), F(1, 2), F(2), F(-1), F(1, 4)]
+
+
+def gen_multi_asset(g):
+    fam = g.choice(["spread_position", "spread_position", "spread_name", "basket", "basket"])
+    N = g.small()
+    n = 2 if fam.startswith("spread") else g.choice([2, 3, 3, 4])
+    names = ["first", "second"] if n == 2 and fam.startswith("spread") else [f"asset{i}" for i in range(n)]
+    prices = [gen_paths(g, N, g.small((1, 2, 3, 5)), 3) for _ in range(n)]
+    weights = [F(1), F(-1)] if fam.startswith("spread") else [g.choice(WEIGHTS) for _ in range(n)]
+    k = g.choice([F(0), F(0), F(1, 2), F(-1), g.dy(-2, 4, 3)])
+    adds = []
+    for _ in range(g.choice([0, 0, 1, 2])):
+        ck = g.choice(["affine", "cap", "floor"])
+        adds.append([g.choice(["a", "b", "c"]), ["affine", rat_str(g.choice([F(1, 2), F(2), F(-1)])), rat_str(g.choice([F(0), F(1, 2)]))]
+                     if ck == "affine" else [ck, rat_str(g.dy(0, 2, 2))]])
+    ops = []
+    for _ in range(g.choice([1, 1, 2, 3, 5])):
+        if fam == "basket" and g.chance(0.2):
+            ops.append(["grow", f"asset{n}", g.choice(["attr", "register"]), rat_str(g.choice(WEIGHTS)),
+                        enc_rat(gen_paths(g, N, g.small((1, 2, 3)), 3))])
+            names.append(f"asset{n}")
+            n += 1
+        else:
+            # mostly NOT the last name: the position must be kept
+            name = g.choice(names[:-1] + names[:1] + names)
+            ops.append(["replace", name, g.choice(["attr", "attr", "register"]), enc_rat(gen_paths(g, N, g.small((1, 2, 3, 5)), 3))])
+    return dict(family=fam, strike=k, prices=prices, weights=weights, adds=adds, ops=ops)
+
+
+def multi_asset_corpus():
+    """every position of a spread / a three-asset basket replaced once, by attribute and by registration: part of every run"""
+    a, b, c3, new = [[F(2), F(3)], [F(1), F(4)]], [[F(1), F(1, 2)], [F(1), F(1)]], [[F(1, 4)], [F(2)]], [[F(1), F(7, 2)], [F(1), F(1, 4)]]
+    out = []
+    for how in ("attr", "register"):
+        for fam in ("spread_position", "spread_name"):
+            for name in ("first", "second"):
+                out.append(dict(family=fam, strike=F(1, 2), prices=[a, b], weights=[F(1), F(-1)], adds=[],
+                                ops=[["replace", name, how, enc_rat(new)]]))
+        for i in range(3):
+            out.append(dict(family="basket", strike=F(1), prices=[a, b, c3], weights=[F(1), F(-1, 2), F(2)],
+                            adds=[["a", ["affine", "2", "0"]]], ops=[["replace", f"asset{i}", how, enc_rat(new)]]))
+    return out
+
+
+def check_multi_asset(ctx, torch, g):
+    Spread, Basket = user_contracts()
+    creqs, cmeta = [], []
+    for c in multi_asset_corpus() + [gen_multi_asset(g) for _ in range(150 if ctx.tier == "quick" else 2500)]:
+        fam = c["family"]
+        case = {"contract": fam, "strike": rat_str(c["strike"]), "prices": enc_rat(c["prices"]), "weights": enc_rat(c["weights"]),
+                "adds": c["adds"], "ops": c["ops"]}
+        ctx.case(case, nontrivial=True, tag="multi_asset_" + fam)
+        ctx.traces += 1
+        ctx.stats[f"multi:assets={len(c['prices'])}"] += 1
+        dtv = F(1, 4)
+        assets = [new_stock(torch, p, dtv) for p in c["prices"]]
+        cur = [[list(r) for r in p] for p in c["prices"]]            # the prices registered now, by position
+        weights = list(c["weights"])
+        if fam == "basket":
+            d = Basket(assets, [float(w) for w in weights], float(c["strike"]), 1.0)
+            reg = [[f"asset{i}", a] for i, a in enumerate(assets)]
+        else:
+            d = Spread(assets[0], assets[1], float(c["strike"]), 1.0, "position" if fam == "spread_position" else "name")
+            reg = [["first", assets[0]], ["second", assets[1]]]
+        pool = ClausePool("function", True)
+        for name, desc in c["adds"]:
+            d.add_clause(name, pool.get(desc))
+        for step, op in enumerate([["initial"]] + c["ops"]):
+            here = case | {"step": step, "after": op[:3]}
+            if op[0] != "initial":
+                other = new_stock(torch, dec_rat(op[-1]), dtv)
+                st, v, _ = call_impl(setattr, d, op[1], other) if op[2] == "attr" else call_impl(d.register_underlier, op[1], other)
+                if st != "ok":
+                    ctx.fail("replacing an asset of a user-defined contract / registering a further asset raised", here,
+                             key="derivative.underliers:registration-error", detail=v)
+                    break
+                if op[0] == "grow":
+                    reg.append([op[1], other])
+                    cur.append(dec_rat(op[-1]))
+                    weights.append(F(op[3]))
+                    d.weights.append(float(F(op[3])))
+                else:
+                    i = [n for n, _ in reg].index(op[1])
+                    reg[i][1] = other
+                    cur[i] = dec_rat(op[-1])
+            ctx.stats[f"multi:op={op[0]}"] += 1
+            badreg = registry_wrong(d, reg)
+            if badreg:
+                ctx.fail("the underlier registry of a user-defined contract on several assets does not list the assets in the order in "
+                         "which their names were registered (an asset replaced after construction keeps its position)",
+                         here | {"registered": reg_show(reg)}, key="derivative.underliers:registration-order", detail=badreg)
+            with torch.no_grad():
+                st, v, mut = call_impl(d.payoff, watch=[("derivative", d)])
+            if mut:
+                ctx.mutated("derivative.payoff", mut, here)
+            n_paths = len(cur[0])
+            if st != "ok" or tuple(v.shape) != (n_paths,):
+                ctx.fail("payoff() of a user-defined contract on several assets raised / does not have one entry per path", here,
+                         key=f"derivative.user_{fam}.payoff:error", detail=v if st != "ok" else list(v.shape))
+                break
+            base = [max(sum(w * p[r][-1] for w, p in zip(weights, cur)) - c["strike"], 0) for r in range(n_paths)]
+            exp = [apply_clauses_py(c["adds"], b)[1] for b in base]
+            got = tensor_to_fracs(v)
+            if got != exp:
+                ctx.fail("payoff() of a user-defined contract on several assets is not clauses(contract) on the assets registered now, "
+                         "in the order in which their names were registered" + (" (after an asset was replaced)" if step else ""),
+                         here, key=f"derivative.user_{fam}.payoff:" + ("wrong-asset" if badreg else "value"),
+                         detail={"impl": enc_rat(got), "contract": enc_rat(exp), "registry": badreg})
+                break
+        else:
+            # the clause chain of the user contract through the model (op "clauses"), on the contract values of the last step
+            fn_ = tensor_to_fracs(d.payoff_fn())
+            creqs.append({"op": "clauses", "adds": c["adds"], "base": enc_rat(fn_)})
+            cmeta.append((case, got, [n for n, _ in d.named_clauses()]))
+    try:
+        couts = ctx.driver(creqs)
+    except DriverBroken as e:
+        ctx.ties_broken.append({"kind": "driver", "detail": str(e)[:1500]})
+        couts = []
+    for (case, got, names), m in zip(cmeta, couts):
+        if m.get("names") != names or dec_rat(m.get("payoff", [])) != got:
+            ctx.disagree("clauses_user_contract", case, {"names": names, "payoff": enc_rat(got)}, m)
+
+
 def _small(c):
-    return {"kind": c["kind"], "call": c["call"], "strike": rat_str(c["strike"]), "paths": enc_rat(c["paths"]),
-            "adds": c["adds"], "dt": rat_str(c["dt"]), "sidx": c["sidx"], "clause_callable": c["cform"],
-            "one_object_per_clause": c["share"]}
+    out = {"kind": c["kind"], "call": c["call"], "strike": rat_str(c["strike"]), "paths": enc_rat(c["paths"]),
+           "adds": c["adds"], "dt": rat_str(c["dt"]), "sidx": c["sidx"], "clause_callable": c["cform"],
+           "one_object_per_clause": c["share"]}
+    if c.get("hist", "direct") != "direct":
+        out |= {"history": [list(x) for x in HIST[c["hist"]]], "other_prices": {k: enc_rat(v) for k, v in c["others"].items()}}
+    return out
